@@ -30,9 +30,10 @@ try:
         if mpk and mpk.group(1) in ("smtp", "smtp_test"):
             sub = "./smtp"
     demo_dst = os.path.join(wt, sub, "zz_seed_demo_test.go")
+    race = "-race " if any("-race" in c for c in meta.get("commands", [])) else ""  # the demonstration needs the race detector
     if os.path.exists(demo):
         shutil.copy(demo, demo_dst)
-        rc0, o0 = sh("go test -vet=off -count=1 -run 'TestSeed' %s 2>&1 | tail -15" % sub, cwd=wt, timeout=900)
+        rc0, o0 = sh("go test %s-vet=off -count=1 -run 'TestSeed' %s 2>&1 | tail -15" % (race, sub), cwd=wt, timeout=900)
         res["demo_without_patch"] = "PASS" if ("ok " in o0 and "FAIL" not in o0) else "FAIL:\n" + o0[-600:]
         os.remove(demo_dst)
     rc, out = sh("git apply --whitespace=nowarn %s" % os.path.join(src, "patch.diff"), cwd=wt)
@@ -47,7 +48,7 @@ try:
     res["baseline_ok"] = rc == 0
     if os.path.exists(demo):
         shutil.copy(demo, demo_dst)
-        rc1, o1 = sh("go test -vet=off -count=1 -run 'TestSeed' %s 2>&1 | tail -15" % sub, cwd=wt, timeout=900)
+        rc1, o1 = sh("go test %s-vet=off -count=1 -run 'TestSeed' %s 2>&1 | tail -15" % (race, sub), cwd=wt, timeout=900)
         res["demo_with_patch"] = "FAIL (as intended)" if "FAIL" in o1 else "PASS (demo does not show the breakage):\n" + o1[-400:]
         os.remove(demo_dst)
     # the checks are taken from the last all-green snapshot when there is one (sub-agents' work in progress in
@@ -58,7 +59,7 @@ try:
     res["checks"] = {}
     for c in checks:
         t = time.time()
-        rc, out = sh("./check %s quick" % c, cwd=vc, e=dict(env, VERIF_REPO=wt, VERIF_COQC_TIMEOUT="300"), timeout=3000)
+        rc, out = sh("./check %s quick" % c, cwd=vc, e=dict(env, VERIF_REPO=wt, VERIF_COQC_TIMEOUT="900"), timeout=3000)
         lines = [l for l in out.split("\n") if l.startswith("VIOLATION") or l.startswith("BROKEN") or " quick:" in l]
         res["checks"][c] = {"exit": rc, "seconds": round(time.time() - t, 1), "lines": [l[:300] for l in lines][:12]}
         for l in out.split("\n"):
